@@ -244,8 +244,54 @@ func sameValue(a, b ssa.Value) bool {
 			}
 		}
 	}
+	// a result of a helper call and the value the helper returns at that position on every successful return
+	if resultBinding(a, b) || resultBinding(b, a) {
+		return true
+	}
 	ka, kb := exprKey(a), exprKey(b)
 	return ka != "" && ka == kb
+}
+
+// resultBinding: outer is result #i of a static call to helper h, inner is a value of h that h returns as
+// result #i on each of its non-error returns.
+func resultBinding(outer, inner ssa.Value) bool {
+	var call *ssa.Call
+	idx := 0
+	switch x := outer.(type) {
+	case *ssa.Call:
+		call = x
+	case *ssa.Extract:
+		c, ok := x.Tuple.(*ssa.Call)
+		if !ok {
+			return false
+		}
+		call, idx = c, x.Index
+	default:
+		return false
+	}
+	h := call.Call.StaticCallee()
+	if h == nil || len(h.Blocks) == 0 {
+		return false
+	}
+	in, ok := inner.(ssa.Instruction)
+	if !ok || in.Parent() != h {
+		return false
+	}
+	n := 0
+	for _, b := range h.Blocks {
+		ret, ok := b.Instrs[len(b.Instrs)-1].(*ssa.Return)
+		if !ok || idx >= len(ret.Results) {
+			continue
+		}
+		if isErrorExit(b) {
+			continue
+		}
+		n++
+		if ret.Results[idx] != inner {
+			return false
+		}
+	}
+	return n > 0
 }
 
 // postDominators computes immediate post-dominators with a virtual exit.
